@@ -20,7 +20,7 @@ RULE = ('operators (+ - * / ** neg ==, reflected with plain numbers), value(unit
         'distinct by (operation, operand kinds and units, follow-up steps)')
 SHARDS = {'quick': 16, 'thorough': 16}
 MIN_NONTRIVIAL = {'quick': 2500, 'thorough': 60000}
-REQUIRED_CLASSES = ['write-into-handed-out-array', 'kind:same-dimension-units-in-one-expression', 'reflected-numpy', 'neutral-element-operand', 'op:+', 'op:-', 'op:*', 'op:/', 'op:==', 'op:pow', 'op:neg', 'op:getitem', 'op:value', 'op:ufunc', 'op:func', 'op:builtin-sum', 'both-operands-one-object', 'followup:toq', 'op:value-with-dtype', 'op:value-level-in-linear-unit', 'op:pow-fraction-object',
+REQUIRED_CLASSES = ['op:constructor-with-quantity-as-unit', 'write-into-handed-out-array', 'kind:same-dimension-units-in-one-expression', 'reflected-numpy', 'neutral-element-operand', 'op:+', 'op:-', 'op:*', 'op:/', 'op:==', 'op:pow', 'op:neg', 'op:getitem', 'op:value', 'op:ufunc', 'op:func', 'op:builtin-sum', 'both-operands-one-object', 'followup:toq', 'op:value-with-dtype', 'op:value-level-in-linear-unit', 'op:pow-fraction-object',
                     'reflected', 'kind:same-unit', 'kind:other-unit', 'kind:reciprocal', 'kind:nodim', 'kind:log', 'kind:temp',
                     'kind:decimal', 'kind:array', 'kind:uncertain', 'followup:to', 'followup:rebase', 'followup:abse', 'followup:rele',
                     'followup:write', 'followup-on-result', 'followup-on-operand', 'twin-probe', 'repo-tests-under-contracts']
@@ -145,8 +145,11 @@ def cases(rng, tier, shard, nshards, ctx):
             op = dict(k='eq', side=rng.choice(['QQ', 'QQ', 'Qn']), num=rng.choice([2.0, 1]))
         elif o < 0.58:
             op = dict(k='pow', e=rng.choice([2, -1, 3, [1, 2], 0.5, [3, 2], 0, 1]), fraction_object=rng.random() < 0.5)
-        elif o < 0.605:
+        elif o < 0.597:
             op = dict(k='pysum', n=rng.choice([1, 1, 2]))
+        elif o < 0.605:
+            # a quantity used as the UNIT of a new one: Quantity(3, other) = 3 x other
+            op = dict(k='ctorq', num=rng.choice([3.0, 1.0, 0.5, 2]), arr=rng.random() < 0.3)
         elif o < 0.62:
             op = dict(k='neg')
         elif o < 0.67:
@@ -365,6 +368,10 @@ def _run(case, ctx):
                     res = f(1.0, A, op['n'])
             else:
                 res = f(A)
+        elif k == 'ctorq':
+            classes.append('op:constructor-with-quantity-as-unit')
+            uses_b = True
+            res = ctx['Q']([op['num'], op['num'] * 2] if op.get('arr') else op['num'], B)
         elif k == 'pysum':
             classes.append('op:builtin-sum')
             uses_b = op['n'] == 2
